@@ -21,7 +21,7 @@ import (
 var Check = &ev.Check{
 	ID:    "C14",
 	Level: "exploration",
-	Rule: "for every struct-like type of the cell universe a value set S (<=14 values obtained BY DECODING: the baseline, single-field deviations, and for each the re-encoding with struct fields, set elements and map entries in reverse order; " +
+	Rule: "for every struct-like type of the cell universe a value set S (<=96 values obtained BY DECODING: the baseline and the first five single-field deviations of EVERY field, and for each the re-encoding with struct fields, set elements and map entries in reverse order; " +
 		"NaN-free and duplicate-free by construction of the value alphabet): all ordered pairs and all triples of S, plus nil receiver/argument combinations; " +
 		"and all pairs of depth<=1 wire values of the C02 domain (NaN patterns excluded) for wire.ValuesAreEqual. " +
 		"Oracle: reflexive, symmetric, transitive, no panic; x.Equals(y) <=> wire.ValuesAreEqual(x.ToWire(), y.ToWire()) <=> reference structural equality (sets/maps unordered, lists ordered). A case is a pair; non-trivial = pairs of distinct positions in S.",
@@ -75,9 +75,37 @@ func run(w *ev.W) {
 	env.Each(func(cell cells.Cell, ent reg.Entry, f *schema.File, d *schema.Def) {
 		t := schema.Named(d.Name)
 		var S []item
-		vals := env.P.Deviations(f, d, 1)
+		// the baseline and, for EVERY field, its first five alternative values (the
+		// alphabets put equal-size-different-content containers first), at most 48 values
+		all := env.P.Deviations(f, d, 1)
+		var vals []*schema.Val
+		if len(all) > 0 {
+			vals = append(vals, all[0])
+			perField := map[string]int{}
+			base := all[0]
+			for _, v := range all[1:] {
+				changed := ""
+				for _, fd := range d.Fields {
+					a, b := base.Fields[fd.Name], v.Fields[fd.Name]
+					if (a == nil) != (b == nil) || (a != nil && env.P.Key(f, fd.Type, a) != env.P.Key(f, fd.Type, b)) {
+						changed = fd.Name
+						break
+					}
+				}
+				if d.Kind == "union" {
+					for n := range v.Fields {
+						changed = n
+					}
+				}
+				if perField[changed] >= 5 || len(vals) >= 48 {
+					continue
+				}
+				perField[changed]++
+				vals = append(vals, v)
+			}
+		}
 		for _, v := range vals {
-			if !env.P.Valid(f, t, v) || len(S) >= 14 {
+			if !env.P.Valid(f, t, v) {
 				continue
 			}
 			wv := env.P.ToWire(f, t, v)
